@@ -7,6 +7,9 @@ Correspondence (the extracted Gallina model FitsModel.v is the independent reade
   (4) shipped test_data/*.fits: model decode == real read, content hashes pinned in corpus/C06/shipped.json
   (5) a reader written directly against cfitsio in the harness, and a reader written in Python here (layout oracle),
       on the library's bytes; legacy variants (single ORDER, no EXTENTS, no PERIOD) through model and library.
+  (6) the extracted hypothesis of C06_roundtrip, wf_table', is evaluated on every generated table (coverage.counts:
+      tables_satisfying_theorem_hypotheses / tables_checked_against_theorem_hypotheses); wf_table' without wf_doc (to_doc t)
+      would contradict the proved C06_wf_doc and is reported as a violation.
 Table text format (harness, OCaml driver, this file):
   order o..| naxes n..| strides s..| knots i hex64..| coef hex32..| extents hex64..|none | periods hex64..|none |
   periodtok hexstr..|none | aux hexkey hexval   (hexstr: hex of the bytes, '-' for the empty string)"""
@@ -19,7 +22,8 @@ ASSUMPTIONS = [
     "the theorems are about the Gallina model FitsModel.v (L1: write_fits_core/read_fits_core logic, L2: the FITS subset); cfitsio and the C++ are tied to it differentially on every run, not verified",
     "data words are raw bit patterns: bit-for-bit equality of coefficients/knots/extents is a statement about N; cfitsio copies IEEE words unchanged for BITPIX -32/-64 with no BSCALE/BZERO (observed, not proved)",
     "integer arithmetic unbounded in the model (no uint64 wrap of the coefficient count; no-overflow is a stated hypothesis)",
-    "auxiliary values without the quote character (quote doubling on read-back is C16's finding); auxiliary keys not colliding with keywords cfitsio itself interprets (EXTNAME, HDUNAME, END, HISTORY, CONTINUE, BSCALE, BZERO, BLANK, ...)",
+    "the tie covers auxiliary values without the quote character (since C16's fix the library's reader un-doubles quotes, the model's reader returns them doubled: the theorems hold for the model there, the correspondence is not exercised); auxiliary keys not colliding with keywords cfitsio itself interprets (EXTNAME, HDUNAME, END, HISTORY, CONTINUE, BSCALE, BZERO, BLANK, ...)",
+    "wf_table' (hypothesis of C06_roundtrip) is a table-level predicate: limits of the C types and of the 80-column card in its standard 'HIERARCH key = value' form; operator== model (table_op_eq) is a hand transcription of splinetable.h 349-368, the real operator== is called on every round trip",
     "PERIODn header values are outside the property's list (%.15G formatting is not bit exact); carried as opaque text, compared only after parsing",
 ]
 TRUSTED_EXTRA = ["tools/translators/fits_keywords.py (reservedFitsKeyword prefix list -> Generated_fits.v, fails closed)",
@@ -405,11 +409,24 @@ class Runner:
         pe = run_stack([self.model, "encode", self.p("e.list")])
         for l in pe.stdout.split("\n"):
             if " wf_table=" in l:
-                self.stats["tables_checked_against_theorem_hypotheses"] = self.stats.get("tables_checked_against_theorem_hypotheses", 0) + 1
-                if "wf_table=1 wf_doc=1" in l:
-                    self.stats["tables_satisfying_theorem_hypotheses"] = self.stats.get("tables_satisfying_theorem_hypotheses", 0) + 1
+                # the extracted hypothesis of C06_roundtrip (wf_table'), and the instance of C06_wf_doc on this table
+                f = dict(kv.split("=") for kv in l.split()[1:] if "=" in kv)
+                st = self.stats
+                st["theorem_hypothesis"] = "wf_table' (extracted FitsWf.wf_table', the hypothesis of C06_roundtrip)"
+                st["tables_checked_against_theorem_hypotheses"] = st.get("tables_checked_against_theorem_hypotheses", 0) + 1
+                if f.get("wf_table'") == "1":
+                    st["tables_satisfying_theorem_hypotheses"] = st.get("tables_satisfying_theorem_hypotheses", 0) + 1
+                    if f.get("wf_doc") != "1" or f.get("wf_table") != "1":
+                        # contradicts the proved theorems C06_wf_doc / wf_table'_wf_table: extraction, driver or build inconsistency
+                        cid0 = l.split()[0]
+                        c0 = dict(cases).get(cid0)
+                        if c0 is not None:
+                            fail(cid0, c0, "model:wf_table'-without-wf_doc", "extracted wf_table' holds but wf_table / wf_doc (to_doc t) does not (%s): contradicts C06_wf_doc" % l[:80],
+                                 {"broken": "C06_wf_doc"})
                 else:
-                    self.stats.setdefault("tables_outside_theorem_hypotheses", []).append(l[:80])
+                    st.setdefault("tables_outside_wf_table_prime", []).append(l[:80])
+                    if f.get("wf_table") == "1" and f.get("wf_doc") == "1":
+                        st["tables_wf_doc_but_not_wf_table_prime"] = st.get("tables_wf_doc_but_not_wf_table_prime", 0) + 1
         if pd.returncode != 0 or pe.returncode != 0:
             raise BuildError("model driver failed: %s %s" % (pd.stderr[-500:], pe.stderr[-500:]))
         open(self.p("r.list"), "w").write("\n".join(R) + "\n")
